@@ -31,7 +31,7 @@ def have_proto(kind):
 # (kind, suite) pairs on which the kind's Lean driver has been validated byte for byte
 VALIDATED = {"bdd": None,  # all suites
              "bcdd": None,
-             "zbdd": {"c02", "c04", "c09", "c12", "c13", "c08"}}
+             "zbdd": None}
 
 def bf_streams(suite, kinds):
     out = []
@@ -43,16 +43,17 @@ def bf_streams(suite, kinds):
         out.append(s)
     return out
 
+G = "OxiddModel.Generated.Obligations"
 B = "OxiddModel.Bcdd.Properties"
 Z = "OxiddModel.Zbdd.Properties"
 SPEC = {
  "C01": (["OxiddModel.Bdd.Properties", (B, r"canonical|unique|sat_valid"), (Z, r"canonical|unique|sat_valid")], [("c01", ["bdd", "bcdd", "zbdd"])]),
- "C02": (["OxiddModel.Bdd.Properties", (B, r"not_sem|apply|Bin_sem|op_sem|ite|const_var|eval_sem|cofactors|var_nf"),
+ "C02": ([(G, r"enums_as_modelled"), "OxiddModel.Bdd.Properties", (B, r"not_sem|apply|Bin_sem|op_sem|ite|const_var|eval_sem|cofactors|var_nf"),
           (Z, r"zbdd_not|zbdd_apply|op_sem|zbdd_ite|zbdd_var|zbdd_cofactors|bool_view")], [("c02", ["bdd", "bcdd", "zbdd"])]),
  "C03": (["OxiddModel.Bdd.Properties", "OxiddModel.Bdd.PropertiesC12", (B, r"_nf$|reduce"), (Z, r"_nf|nf'")], [("c03", ["bdd", "bcdd", "zbdd"])]),
- "C04": (["OxiddModel.Bdd.PropertiesC04", (B, r"quant|restrict|applyQuant|dispatch|subst|varset|cube_sem|qsem"), (Z, r"restrict")], [("c04", ["bdd", "bcdd", "zbdd"])]),
+ "C04": ([(G, r"dispatch"), "OxiddModel.Bdd.PropertiesC04", (B, r"quant|restrict|applyQuant|dispatch|subst|varset|cube_sem|qsem"), (Z, r"restrict")], [("c04", ["bdd", "bcdd", "zbdd"])]),
  "C05": (["OxiddModel.Bdd.PropertiesC05"], [("c05", ["bdd", "bcdd", "zbdd"])]),
- "C06": (["OxiddModel.Bdd.PropertiesC06"], [("c06", ["bdd", "bcdd", "zbdd"])]),
+ "C06": ([(G, r"memo_"), "OxiddModel.Bdd.PropertiesC06"], [("c06", ["bdd", "bcdd", "zbdd"])]),
  "C07": (["OxiddModel.Bdd.PropertiesC07"], [("c07", ["bdd", "bcdd", "zbdd"])]),
  "C08": (["OxiddModel.Reorder.Properties"], [("c08", ["bdd", "bcdd", "zbdd"])]),
  "C09": ([(Z, r"family|union|intsec|diff|subset|change|makeNode|bool_view|add_vars|taut|setops|const_nf")], [("c09", ["zbdd"])]),
@@ -86,3 +87,20 @@ for pid, (mods, suites) in SPEC.items():
         cfg.pop("disabled", None)
     json.dump(cfg, open(p, "w"), indent=1)
     print(pid, len(ms), "modules", len(ts), "theorems", [s["name"] + ("+model" if "proto" in s else "") for s in streams], "DISABLED" if not ts else "")
+
+# obligations over the extracted tables for configs written by the area builders
+EXTRA = {"C10": [(G, r"mtbdd|enums_as_modelled")], "C11": [(G, r"tdd|enums_as_modelled")], "C17": [(G, r"constants_as_modelled")]}
+for pid, mods in EXTRA.items():
+    p = os.path.join(ROOT, "checks", pid + ".json")
+    if not os.path.exists(p):
+        continue
+    cfg = json.load(open(p))
+    ms, ts = mods_theorems(mods)
+    for m in ms:
+        if m not in cfg["lean_modules"]:
+            cfg["lean_modules"].append(m)
+    for t in ts:
+        if t not in cfg["theorems"]:
+            cfg["theorems"].append(t)
+    json.dump(cfg, open(p, "w"), indent=1)
+    print(pid, "+", len(ts), "generated-table obligations")
